@@ -88,8 +88,14 @@ CHECKS["C12"] = dict(level="exploration", engine="E3 grid",
    note="Non-canonical but unambiguous spellings (userinfo, query, fragment, host case, explicit partition on agent IDs which CE deliberately does not validate, placeholder trust domain on agent IDs) are verdict 'either': only the issued certificate's identity is checked. Signing availability after an operator supplied a key that does not match the root is counted, not judged. Vault/AWS providers and secondary-datacenter intermediates are not explored. Two genuine defects repaired.",
    design="§3 C12")
 
+CHECKS["C16"] = dict(level="fault_enumeration", engine="E3 grid",
+   technique="exhaustive histories of local registrations and catalog drift on the real agent/local.State against a catalog served from a real FSM; deviation-bounded (<=2) enumeration of failing RPC identities x error kinds for one sync, then a clean full sync; bookkeeping and convergence oracles",
+   text="Every history (depth 2 quick, 3 thorough) over 22 operations - local add/re-add/remove of services with their checks as Agent does it (same and different tokens, one and two piggy-backed checks), node checks, check status updates, and external drift (foreign service/check appear, rows removed or altered, node removed, node meta altered) - from an empty and from a synced base state runs on the real local.State whose Delegate serves Catalog.NodeServiceList, Health.NodeChecks, Catalog.Register (the endpoint's own pre-apply code via hook) and Catalog.Deregister from a real FSM/state store. Then SyncFull or SyncChanges runs under every set of <=2 failing RPC identities (taken from the calls the fault-free and single-fault runs really make: list-services, list-checks, register node / service(+checks) / check, deregister service / check) x {rpc error, permission denied, ACL not found}, followed by a clean SyncFull. After the faulty sync: a non-ACL failure is reported; no entry is flagged InSync unless the catalog holds an equal row or its own call was refused by ACLs; no local deregistration loses its Deleted marker while the catalog still holds the row. After the clean full sync: catalog services and checks of the node equal the local ones, every flag is clean, the node row exists.",
+   note="ACL refusals are injected errors (token resolution and vetRegisterWithACL are not modelled); read-side ACL filtering of the listings, check output deferral timers (CheckUpdateInterval>0) and the ae.StateSyncer timer loop are not explored. Go map iteration order inside SyncChanges is sampled by the enumeration.",
+   design="§3 C16")
+
 _WIP = "not claimed yet: the check described in DESIGN.md for this property is not built at this commit (work in progress, not a statement that model checking cannot apply)"
-NOT_APPLICABLE = [dict(property_id=p, reason=_WIP) for p in ("C11", "C16", "C17", "C18")]
+NOT_APPLICABLE = [dict(property_id=p, reason=_WIP) for p in ("C11", "C17", "C18")]
 
 def main():
     checks = []
